@@ -8,6 +8,7 @@
 #include <manif/algorithms/average.h>
 #include <manif/algorithms/decasteljau.h>
 #include <vector>
+#include <limits>
 
 namespace hx {
 
@@ -250,6 +251,71 @@ bool runAlgo(const Req& r, Resp& R) {
   return false;
 }
 
+// C09: aliased assignments and Jacobian outputs bound to a block of a larger matrix.
+template <class G, char S>
+typename std::enable_if<S != 'c', bool>::type runPurity(const Req& r, Resp& R) {
+  using T = typename G::Tangent;
+  using J = typename G::Jacobian;
+  constexpr int Rep = G::RepSize, DoF = G::DoF, Dim = G::Dim;
+  const std::string& op = r.op;
+  const std::vector<double>& a = r.a;
+  auto& out = R.out;
+  if (op.compare(0, 5, "self_") == 0) {
+    if (op == "self_compose" && a.size() == (size_t)Rep) { Operand<G, S> x(a.data()); x.mut() = x.get() * x.get(); pushM(out, x.get().coeffs()); return true; }
+    if (op == "self_compose2" && a.size() == (size_t)Rep) { Operand<G, S> x(a.data()); x.mut() = x.get().compose(x.get()); pushM(out, x.get().coeffs()); return true; }
+    if (op == "self_timeseq" && a.size() == (size_t)Rep) { Operand<G, S> x(a.data()); x.mut() *= x.get(); pushM(out, x.get().coeffs()); return true; }
+    if (op == "self_inverse" && a.size() == (size_t)Rep) { Operand<G, S> x(a.data()); x.mut() = x.get().inverse(); pushM(out, x.get().coeffs()); return true; }
+    if (op == "self_between" && a.size() == (size_t)(2 * Rep)) { Operand<G, S> x(a.data()); Operand<G, 'o'> y(a.data() + Rep); x.mut() = x.get().between(y.get()); pushM(out, x.get().coeffs()); return true; }
+    if (op == "self_rplus" && a.size() == (size_t)(Rep + DoF)) { Operand<G, S> x(a.data()); TOperand<T, 'o'> t(a.data() + Rep); x.mut() = x.get() + t.get(); pushM(out, x.get().coeffs()); return true; }
+    if (op == "self_lplus" && a.size() == (size_t)(Rep + DoF)) { Operand<G, S> x(a.data()); TOperand<T, 'o'> t(a.data() + Rep); x.mut() = x.get().lplus(t.get()); pushM(out, x.get().coeffs()); return true; }
+    return false;
+  }
+  if (op.compare(0, 4, "blk_") != 0) return false;
+  const std::string base = op.substr(4);
+  const bool w0 = r.mask & 1, w1 = r.mask & 2;
+  const double nan = std::numeric_limits<double>::quiet_NaN();
+  Eigen::Matrix<double, DoF + 3, DoF + 4> A, B;
+  A.setConstant(nan); B.setConstant(nan);
+  typename G::OptJacobianRef oa, ob;
+  if (w0) oa = A.template block<DoF, DoF>(1, 2);
+  if (w1) ob = B.template block<DoF, DoF>(2, 1);
+  auto fin = [&]() { if (w0) pushM(out, A); if (w1) pushM(out, B); };
+  if ((base == "compose" || base == "between") && a.size() == (size_t)(2 * Rep)) {
+    Operand<G, S> x(a.data()), y(a.data() + Rep);
+    G g = (base == "compose") ? x.get().compose(y.get(), oa, ob) : x.get().between(y.get(), oa, ob);
+    pushM(out, g.coeffs()); fin(); return true;
+  }
+  if ((base == "rplus" || base == "lplus") && a.size() == (size_t)(Rep + DoF)) {
+    Operand<G, S> x(a.data()); TOperand<T, S> t(a.data() + Rep);
+    G g = (base == "rplus") ? x.get().rplus(t.get(), oa, ob) : x.get().lplus(t.get(), oa, ob);
+    pushM(out, g.coeffs()); fin(); return true;
+  }
+  if ((base == "rminus" || base == "lminus") && a.size() == (size_t)(2 * Rep)) {
+    Operand<G, S> x(a.data()), y(a.data() + Rep);
+    T t = (base == "rminus") ? x.get().rminus(y.get(), oa, ob) : x.get().lminus(y.get(), oa, ob);
+    pushM(out, t.coeffs()); fin(); return true;
+  }
+  if (base == "inverse" && a.size() == (size_t)Rep) { Operand<G, S> x(a.data()); G g = x.get().inverse(oa); pushM(out, g.coeffs()); if (w0) pushM(out, A); return true; }
+  if (base == "log" && a.size() == (size_t)Rep) { Operand<G, S> x(a.data()); T t = x.get().log(oa); pushM(out, t.coeffs()); if (w0) pushM(out, A); return true; }
+  if (base == "exp" && a.size() == (size_t)DoF) { TOperand<T, S> t(a.data()); G g = t.get().exp(oa); pushM(out, g.coeffs()); if (w0) pushM(out, A); return true; }
+  if (base == "act" && a.size() == (size_t)(Rep + Dim)) {
+    Operand<G, S> x(a.data());
+    Eigen::Matrix<double, Dim, 1> v;
+    for (int i = 0; i < Dim; ++i) v(i) = a[Rep + i];
+    Eigen::Matrix<double, Dim + 3, DoF + 4> Am; Eigen::Matrix<double, Dim + 3, Dim + 4> Bm;
+    Am.setConstant(nan); Bm.setConstant(nan);
+    tl::optional<Eigen::Ref<Eigen::Matrix<double, Dim, DoF>>> om;
+    tl::optional<Eigen::Ref<Eigen::Matrix<double, Dim, Dim>>> ov;
+    if (w0) om = Am.template block<Dim, DoF>(1, 2);
+    if (w1) ov = Bm.template block<Dim, Dim>(2, 1);
+    Eigen::Matrix<double, Dim, 1> res = x.get().act(v, om, ov);
+    pushM(out, res); if (w0) pushM(out, Am); if (w1) pushM(out, Bm); return true;
+  }
+  return false;
+}
+template <class G, char S>
+typename std::enable_if<S == 'c', bool>::type runPurity(const Req&, Resp&) { return false; }
+
 template <class G, char S>
 void runS(const Req& r, Resp& R) {
   using T = typename G::Tangent;
@@ -263,6 +329,7 @@ void runS(const Req& r, Resp& R) {
   auto need = [&](size_t n) { return a.size() == n; };
   R.handled = true;
   if (runAlias<G, S>(r, R) || runMutAlias<G, S>(r, R)) return;
+  if (runPurity<G, S>(r, R)) return;
   if (S == 'o' && runAlgo<G>(r, R)) return;
   if (S == 'o' && Extra<G>::run(r, R)) return;
   if (op == "exp" && need(DoF)) {
